@@ -527,6 +527,8 @@ class CallMixin:
         q0 = c.qual.split("#")[0].split("@")[0]
         if q0 in self.repo.qual and c.fn_override is None:
             self.check_decorators(q0, self.repo.qual[q0])       # a contract on the body does not describe a call that goes through a wrapper
+            if getattr(c, "variant_of", None) is None and "#" not in c.qual and "@" not in c.qual and not c.trusted:
+                self.check_signature(c, self.repo.qual[q0])         # a callee whose parameters changed is not applied under a stale contract
         env = self.bind_params(c, args, kwargs, st, node)
         self.calls_seen.append((self.cur_fn, c.qual))
         st.log.append(("call-begin", c.qual, dict(env), None, getattr(node, "lineno", 0)))
